@@ -4,6 +4,7 @@ import (
 	"fmt"
 	"go/ast"
 	"go/token"
+	"sort"
 	"strings"
 )
 
@@ -14,6 +15,75 @@ type skel struct {
 	f        *file
 	gen      string
 	deferred bool // `defer m.RUnlock()` seen: every return releases first
+	locking  map[string]bool          // methods of *Metric that take the metric's lock
+	pkgFuncs map[string]*ast.FuncDecl // functions of package exporter, by name
+	pkgFile  map[string]*file
+}
+
+var formatFuncs = map[string]bool{"Sprintf": true, "Sprint": true, "Sprintln": true, "Fprintf": true, "Fprint": true, "Fprintln": true,
+	"Printf": true, "Errorf": true, "Infof": true, "Info": true, "Warningf": true, "Warning": true, "Error": true, "Fatalf": true,
+	"Wrapf": true, "Wrap": true, "Println": true, "Print": true, "Infoln": true, "Warningln": true}
+
+// relocks reports whether evaluating n may take the lock of the metric named recv again:
+// a call of a locking method on it, or formatting it (fmt/glog call with the metric itself as
+// an argument calls Metric.String(), which takes RLock), directly or inside a package
+// function it is passed to.
+func (k *skel) relocks(f *file, n ast.Node, recv string, depth int) bool {
+	found := false
+	ast.Inspect(n, func(x ast.Node) bool {
+		ce, ok := x.(*ast.CallExpr)
+		if !ok || found {
+			return !found
+		}
+		if se, ok := ce.Fun.(*ast.SelectorExpr); ok {
+			if id, ok := se.X.(*ast.Ident); ok && id.Name == recv && k.locking[se.Sel.Name] {
+				found = true
+				return false
+			}
+			if formatFuncs[se.Sel.Name] {
+				for _, a := range ce.Args {
+					if id, ok := a.(*ast.Ident); ok && id.Name == recv {
+						found = true
+						return false
+					}
+				}
+			}
+		}
+		// a package function or function value that receives the metric
+		if depth < 2 {
+			for i, a := range ce.Args {
+				id, ok := a.(*ast.Ident)
+				if !ok || id.Name != recv {
+					continue
+				}
+				var cands []string
+				if fid, ok := ce.Fun.(*ast.Ident); ok {
+					if _, known := k.pkgFuncs[fid.Name]; known {
+						cands = []string{fid.Name}
+					} else if fid.Name == "f" { // the formatter parameter of writeSocketMetrics
+						cands = []string{"metricToGraphite", "metricToStatsd", "metricToCollectd"}
+					}
+				}
+				for _, c := range cands {
+					fd := k.pkgFuncs[c]
+					if fd == nil || fd.Body == nil {
+						continue
+					}
+					pi := 0
+					for _, fl := range fd.Type.Params.List {
+						for _, nm := range fl.Names {
+							if pi == i && k.relocks(k.pkgFile[c], fd.Body, nm.Name, depth+1) {
+								found = true
+							}
+							pi++
+						}
+					}
+				}
+			}
+		}
+		return !found
+	})
+	return found
 }
 
 func (k *skel) block(stmts []ast.Stmt) []string {
@@ -44,6 +114,9 @@ func (k *skel) stmt(st ast.Stmt) []string {
 			return []string{".runlock"}
 		case "m.Lock", "m.Unlock":
 			shapeErr(k.gen, "exporter takes the write lock: %s", k.f.src(x))
+		}
+		if k.relocks(k.f, x, "m", 0) {
+			return []string{".relock"}
 		}
 		return []string{".other"}
 	case *ast.DeferStmt:
@@ -97,7 +170,14 @@ func (k *skel) stmt(st ast.Stmt) []string {
 		}
 		return []string{".other"}
 	case *ast.IfStmt:
-		out := []string{".ifs " + lst(k.block(x.Body.List))}
+		var out []string
+		if x.Init != nil {
+			out = append(out, k.stmt(x.Init)...)
+		}
+		if k.relocks(k.f, x.Cond, "m", 0) {
+			out = append(out, ".relock")
+		}
+		out = append(out, ".ifs "+lst(k.block(x.Body.List)))
 		if x.Else != nil {
 			switch e := x.Else.(type) {
 			case *ast.BlockStmt:
@@ -124,6 +204,9 @@ func (k *skel) stmt(st ast.Stmt) []string {
 	case *ast.BlockStmt:
 		return k.block(x.List)
 	default:
+		if k.relocks(k.f, st, "m", 0) {
+			return []string{".relock"}
+		}
 		return []string{".other"}
 	}
 }
@@ -161,6 +244,62 @@ func init() {
 			{"internal/exporter/varz.go", "HandleVarz", "handleVarz"},
 			{"internal/exporter/graphite.go", "HandleGraphite", "handleGraphite"},
 		}
+		// methods of *Metric that take its lock (directly or through another method)
+		locking := map[string]bool{}
+		mf := parse("internal/metrics/metric.go")
+		calls := map[string][]string{}
+		if mf != nil {
+			for _, d := range mf.f.Decls {
+				fd, ok := d.(*ast.FuncDecl)
+				if !ok || fd.Recv == nil || fd.Body == nil || len(fd.Recv.List) != 1 || len(fd.Recv.List[0].Names) != 1 {
+					continue
+				}
+				if !strings.Contains(mf.src(fd.Recv.List[0].Type), "Metric") {
+					continue
+				}
+				rn := fd.Recv.List[0].Names[0].Name
+				ast.Inspect(fd.Body, func(n ast.Node) bool {
+					if ce, ok := n.(*ast.CallExpr); ok {
+						if se, ok := ce.Fun.(*ast.SelectorExpr); ok {
+							if id, ok := se.X.(*ast.Ident); ok && id.Name == rn {
+								switch se.Sel.Name {
+								case "Lock", "RLock":
+									locking[fd.Name.Name] = true
+								default:
+									calls[fd.Name.Name] = append(calls[fd.Name.Name], se.Sel.Name)
+								}
+							}
+						}
+					}
+					return true
+				})
+			}
+			for changed := true; changed; {
+				changed = false
+				for fn, cs := range calls {
+					for _, c := range cs {
+						if locking[c] && !locking[fn] {
+							locking[fn] = true
+							changed = true
+						}
+					}
+				}
+			}
+		}
+		pkgFuncs := map[string]*ast.FuncDecl{}
+		pkgFile := map[string]*file{}
+		for _, rel := range []string{"export.go", "prometheus.go", "varz.go", "graphite.go", "statsd.go", "collectd.go", "json.go"} {
+			pf := parse("internal/exporter/" + rel)
+			if pf == nil {
+				continue
+			}
+			for _, d := range pf.f.Decls {
+				if fd, ok := d.(*ast.FuncDecl); ok && fd.Recv == nil {
+					pkgFuncs[fd.Name.Name] = fd
+					pkgFile[fd.Name.Name] = pf
+				}
+			}
+		}
 		var b strings.Builder
 		b.WriteString("import MtailVerif.Model.ExportLocks\n")
 		b.WriteString("/-! GENERATED by /verif/go/extract: lock/emitter skeleton of the closure each exporter passes to Store.Range. -/\n")
@@ -175,13 +314,19 @@ func init() {
 			} else if lit := rangeClosure(f, fd); lit == nil {
 				shapeErr("ExportLocks", "%s: no closure passed to e.store.Range", t.fn)
 			} else {
-				k := &skel{f: f, gen: "ExportLocks"}
+				k := &skel{f: f, gen: "ExportLocks", locking: locking, pkgFuncs: pkgFuncs, pkgFile: pkgFile}
 				body = k.block(lit.Body.List)
 			}
 			fmt.Fprintf(&b, "def %s : List Stmt := %s\n", t.name, lst(body))
 			names = append(names, fmt.Sprintf("(%s, %s)", leanStr(t.fn), t.name))
 		}
 		fmt.Fprintf(&b, "def all : List (String × List Stmt) := [%s]\n", strings.Join(names, ", "))
+		var lm []string
+		for m := range locking {
+			lm = append(lm, leanStr(m))
+		}
+		sort.Strings(lm)
+		fmt.Fprintf(&b, "/-- methods of *Metric that take the metric's own lock -/\ndef lockingMethods : List String := [%s]\n", strings.Join(lm, ", "))
 		b.WriteString("end MtailVerif.Generated.ExportLocks\n")
 		write("ExportLocks", b.String())
 	})
